@@ -991,12 +991,14 @@ func (fa *FA) cellNil(ver *MemVer) *Lin {
 func neverNilResult(f *ssa.Function) bool { return neverNil(f, map[*ssa.Function]bool{}) }
 
 func neverNil(f *ssa.Function, busy map[*ssa.Function]bool) bool {
-	if f.Pkg == nil {
+	if f.Pkg == nil && f.Origin() == nil {
 		return false
 	}
-	switch f.Pkg.Pkg.Path() + "." + f.Name() {
-	case "errors.New", "fmt.Errorf":
-		return true
+	if f.Pkg != nil {
+		switch f.Pkg.Pkg.Path() + "." + f.Name() {
+		case "errors.New", "fmt.Errorf":
+			return true
+		}
 	}
 	if busy[f] {
 		return true // assume for recursion
